@@ -336,8 +336,6 @@ class PCreep(Pattern):
         self.buffer = []
         self.pos = 0
         self.rcount = 1
-        while len(self.buffer) < self.length:
-            self.buffer.append(next(self.pattern))
 
     def __next__(self):
         length = Pattern.value(self.length)
